@@ -121,7 +121,7 @@ def run_nodes(ctx, res, extra_cases):
     dist = res["distribution"]
     rng = ctx.rng
     cases = [(n, cs) for n, cs in extra_cases if n in FMT]
-    for i in range(ctx.n(600, 30000)):
+    for i in range(ctx.n(490, 30000)):
         name = ("SRT", "MicroDVD", "WebVTT", "SRT", "MicroDVD", "WebVTT", "SCC")[i % 7]
         cases.append((name, adv_set(rng, name)))
     reqs, items = [], []
